@@ -18,6 +18,9 @@ CONSTANTS
   MaxBurst = 1
   DynChoices = {FALSE}
   HalfOps = {}
+  PadSizes = {}
+  PadLens = {}
+  MaxPad = 0
   MaxHalf = 0
   Paths = FALSE
 INIT Init
